@@ -43,6 +43,7 @@ var c18Segs = map[string]string{
 	"confirm-q": "Please Confirm the action [y]: ", "password-q": "Password: ", "yesno-q": "Overwrite file? (yes/no) ",
 	"digit-line": "step 4 of the plan\r\nnext> ", "plain": "working on it...\r\n", "more": " --more-- #", "finished": "all finished\r\nr1# ",
 	"done-upper": "DONE\r\nr1# ", "done-lower": "done\r\nr1# ", "password-again": "Password: ", "two-triggers": "Confirm? password ok (yes/no) 7 #",
+	"pw-upper-q": "Reset PASSWORD now? [y/n] ", "more-upper": " --MORE-- #",
 }
 
 var c18Res = map[string]*regexp.Regexp{"digit": regexp.MustCompile(`\d`), "hashend": regexp.MustCompile(`#\s*$`)}
